@@ -237,13 +237,37 @@ def rand_cells(rng, n_slices=None, layout=None, kind=None, vkind=None, fields=No
 
     rows = mk_rows()
     cells = []
+    subset_mode = same_layout and rng.random() < 0.4
     for m in metas:
         r = rows if same_layout else mk_rows()
+        if subset_mode:
+            # same periods, each slice observes its own subset of the evaluation dates (so incremental
+            # cells of different slices share coordinates but not prev_evaluation_date)
+            r = [(ps, pe, sorted(rng.sample(evs, rng.randrange(1, len(evs) + 1)))) for ps, pe, evs in r]
         cells += cells_from_layout(rng, r, m, kind=kind, fields=fields, vkind=vkind, n_samples=n_samples)
     if max_cells and len(cells) > max_cells:
         cells = rng.sample(cells, max_cells)
     rng.shuffle(cells)
     return cells
+
+
+def nested_detail_metas(rng, n):
+    """metadata whose details / loss_details are nested key sets over a shared pool (some entries
+    common to all slices, extra keys sorting before and after the common ones)"""
+    pool = {"coverage": "BI", "state": "NY", "k": 1, "s": "x", "product": 2.5, "aa": "first", "zz": "last"}
+    common = rng.sample(sorted(pool), rng.randrange(1, 3))
+    out, seen = [], set()
+    for _ in range(n * 4):
+        extra = [k for k in sorted(pool) if k not in common and rng.random() < 0.35]
+        d = {k: pool[k] for k in common + extra}
+        which = rng.choice(["details", "loss_details"])
+        m = Metadata(**{which: d}) if rng.random() < 0.7 else Metadata(details=d, loss_details={k: pool[k] for k in common})
+        if m not in seen:
+            seen.add(m)
+            out.append(m)
+        if len(out) == n:
+            break
+    return out
 
 
 def describe(cells):
